@@ -416,7 +416,19 @@ def chain_order_by_model(g):
         seen.add(nxt[0])
     if len(order) != len(nodes):
         return None
+    # direction: increasing reference offset. With >= 2 scaffold nodes their SO decides; with one, the smallest SO
+    # of the rank-0 nodes of the first and last chain element does.
     sos = [g.segs[n[1]].SO for n in order if n[0] == "s"]
-    if len(sos) >= 2 and sos[0] > sos[-1]:
-        order.reverse()
+    if len(sos) >= 2:
+        if sos[0] > sos[-1]:
+            order.reverse()
+    else:
+        def ref_so(el):
+            ids = [el[1]] if el[0] == "s" else sorted(el[1])
+            v = [g.segs[i].SO for i in ids if g.segs[i].SR == 0]
+            return min(v) if v else None
+
+        a, b = ref_so(order[0]), ref_so(order[-1])
+        if a is not None and b is not None and a > b:
+            order.reverse()
     return order
